@@ -188,6 +188,19 @@ class ArrayUnionMatcher(CombinationMatcher):
                 % (self.__class__.__name__, self._submatchers, self._boost,
                    self._scored, self._partsize))
 
+    def reset(self):
+        for subm in self._submatchers:
+            subm.reset()
+        self._docnum = self._min_id()
+        self._read_part()
+
+    def copy(self):
+        m = object.__new__(self.__class__)
+        m.__dict__.update(self.__dict__)
+        m._submatchers = [subm.copy() for subm in self._submatchers]
+        m._a = array("d", self._a)
+        return m
+
     def _min_id(self):
         active = [subm for subm in self._submatchers if subm.is_active()]
         if active:
